@@ -96,9 +96,8 @@ class C10Mixin(object):
 
     def _is_mine(self, a):
         k = C.atom_key(a)
-        try:
-            t = self.core.PRIVATE_TABLES[k[0]]
-        except KeyError:
+        t = self._registry().get(k[0])
+        if t is None:
             return False
         el = t[k[1]]
         if k[2]:
